@@ -14,6 +14,7 @@ Definition CE_IO : Z := 3.
 Definition CE_TIMEOUT : Z := 4.
 Definition CE_NOT_OPENED : Z := 5.
 Definition CE_INVALID_DEVICE : Z := 6.
+Definition CE_INVALID_DATA : Z := 8.
 
 (* From<u3v::Error> for ControlError on a libusb error code (shim numbering) *)
 Definition ce_of_usb (code : Z) : Z :=
@@ -246,8 +247,13 @@ Fixpoint read_loop (fuel : nat) (addr remaining chunk : Z) (acc : list Z) : M (l
     else read_loop f (wrapu 64 (addr + n)) (remaining - n) chunk (acc ++ data)
   end.
 
+(* verify_range: [address, address + len) must lie in the 64 bit address space *)
+Definition verify_range (addr len : Z) : M unit :=
+  if 2 ^ 64 <? addr + len then fail CE_INVALID_DATA else ret tt.
+
 Definition ctl_read (addr len : Z) : M (list Z) :=
   do _ <- assert_open;
+  do _ <- verify_range addr len;
   do c <- get_ctl;
   do _ <- lift (read_chunks_init addr 0 (c_max_ack c)) CE_IO;
   do chunk <- lift (maximum_read_length (c_max_ack c)) CE_IO;
@@ -286,6 +292,7 @@ Fixpoint write_blocks (fuel : nat) (addr : Z) (data : list Z) (max_cmd : Z) : M 
 
 Definition ctl_write (addr : Z) (data : list Z) : M unit :=
   do _ <- assert_open;
+  do _ <- verify_range addr (zlen data);
   do c <- get_ctl;
   write_blocks (S (length data)) addr data (c_max_cmd c).
 
